@@ -473,6 +473,10 @@ impl EventBuffer {
             if let Some(record) = self.events.remove_first(T::is_type) {
                 T::decrement_type(&mut self.total.types);
                 self.total.classes.decrement(record.class);
+                // a discarded record that was awaiting confirmation no longer counts as written
+                if record.state.get() == EventState::Written {
+                    self.written.decrement(&record);
+                }
                 self.is_overflown = true;
                 Err(InsertError::Overflow {
                     created: id,
